@@ -80,21 +80,37 @@ def run_workers(prop, tier, seed, ncases, budget_s, nworkers=None, extra_env=Non
     nworkers = max(1, min(nworkers, ncases))
     tmpdir = os.path.join("/tmp", "pvmon-%d-%s" % (os.getpid(), prop))
     os.makedirs(tmpdir, exist_ok=True)
-    procs = []
     env = dict(os.environ)
     if extra_env:
         env.update(extra_env)
     t0 = time.time()
-    for w in range(nworkers):
-        out = os.path.join(tmpdir, "w%d.jsonl" % w)
-        log = open(os.path.join(tmpdir, "w%d.log" % w), "w")
-        cmd = [sys.executable, "-m", "pvmon.worker", prop, tier, str(seed), str(w),
-               str(nworkers), str(ncases), out, str(budget_s)]
-        procs.append((w, out, log, subprocess.Popen(cmd, stdout=log, stderr=subprocess.STDOUT,
-                                                     env=env, cwd=VERIF)))
     hard = budget_s * 2.0 + 60
     info = {"workers": nworkers, "worker_crashes": 0, "worker_killed": 0, "crash_logs": []}
-    for w, out, log, p in procs:
+
+    def launch(w, start):
+        out = os.path.join(tmpdir, "w%d.jsonl" % w)
+        log = open(os.path.join(tmpdir, "w%d.log" % w), "a")
+        left = max(5.0, budget_s - (time.time() - t0))
+        cmd = [sys.executable, "-X", "faulthandler", "-m", "pvmon.worker", prop, tier, str(seed), str(w),
+               str(nworkers), str(ncases), out, str(left), str(start)]
+        return [w, out, log, subprocess.Popen(cmd, stdout=log, stderr=subprocess.STDOUT, env=env, cwd=VERIF), 0]
+
+    def last_idx(out):
+        last = None
+        if os.path.exists(out):
+            with open(out) as f:
+                for line in f:
+                    try:
+                        last = json.loads(line).get("idx", last)
+                    except ValueError:
+                        pass
+        return last
+
+    procs = [launch(w, w) for w in range(nworkers)]
+    pending = list(procs)
+    while pending:
+        ent = pending.pop(0)
+        w, out, log, p, restarts = ent
         left = max(1.0, hard - (time.time() - t0))
         try:
             rc = p.wait(timeout=left)
@@ -108,11 +124,21 @@ def run_workers(prop, tier, seed, ncases, budget_s, nworkers=None, extra_env=Non
             info["worker_crashes"] += 1
             try:
                 with open(log.name) as f:
-                    info["crash_logs"].append(f.read()[-2000:])
+                    info["crash_logs"].append(f.read()[-1500:])
             except OSError:
                 pass
+            # the case that killed the worker is recorded as inconclusive; carry on after it
+            li = last_idx(out)
+            crashed = (li + nworkers) if li is not None else w
+            with open(out, "a") as f:
+                f.write(json.dumps({"idx": crashed, "status": INCONC, "kind": "worker-crash(rc=%s)" % rc}) + "\n")
+            if restarts < 5 and crashed + nworkers < ncases and time.time() - t0 < budget_s:
+                ne = launch(w, crashed + nworkers)
+                ne[4] = restarts + 1
+                procs.append(ne)
+                pending.append(ne)
     results = []
-    for w, out, log, p in procs:
+    for out in sorted(set(e[1] for e in procs)):
         if os.path.exists(out):
             with open(out) as f:
                 for line in f:
